@@ -8,7 +8,7 @@ from symv.program import Program, deep_twin
 
 META = {
     "level": "exploration",
-    "level_text": "Three monitors over random API programs with shared operands. (1) Deep snapshots (block order and bytes, index tables incl. sub-index records, charge, pending-sign table, labels) of every operand are taken at call and compared at return - also when the call raises - for every step issued without an in-place flag, and every pool value is re-checked against its creation snapshot at the end of the program (quiescent sweep). (2) For every operation offering an in-place flag or in-place operator the harness builds two deep twins and requires: in-place returns the very object, its final snapshot equals the out-of-place result, the out-of-place operand is untouched. (3) Aliasing stress: after y = op(x), in-place library operations (phase ops, fuse/unfuse/transpose/conj in place, *=, fill_missing_blocks) are applied to y and x must still equal its snapshot. Later additions: operands with mixed-dtype blocks, fused legs with 17-40 charges (sub-index tables in the snapshot, operand must still unfuse), in-place pairs for fuse with empty groups and drop_misaligned_sectors (overlapping and disjoint partners), eigh on lazy Hermitian pool members, ragged sums, operands of failed in-place calls leave the pool.",
+    "level_text": "Three monitors over random API programs with shared operands. (1) Deep snapshots (block order and bytes, index tables incl. sub-index records, charge, pending-sign table, labels) of every operand are taken at call and compared at return - also when the call raises - for every step issued without an in-place flag, and every pool value is re-checked against its creation snapshot at the end of the program (quiescent sweep). (2) For every operation offering an in-place flag or in-place operator the harness builds two deep twins and requires: in-place returns the very object, its final snapshot equals the out-of-place result, the out-of-place operand is untouched. (3) Aliasing stress: after y = op(x), in-place library operations (phase ops, fuse/unfuse/transpose/conj in place, *=, fill_missing_blocks) are applied to y and x must still equal its snapshot. Later additions: operands with mixed-dtype blocks, fused legs with 17-40 charges (sub-index tables in the snapshot, operand must still unfuse), in-place pairs for fuse with empty groups and drop_misaligned_sectors (overlapping and disjoint partners), eigh on lazy Hermitian pool members, ragged sums, operands of failed in-place calls leave the pool. Round 10: read-only protocols and inspection methods (repr, str, format, check, get_sparsity, is_valid_sector, get_params, index repr / matches) as operations.",
     "technique": "runtime monitoring: operand snapshot comparison at the client boundary, in-place/out-of-place differential on deep twins, aliasing stress",
     "rule": (
         "one evaluation = one monitored call (operand snapshots compared), one in-place/out-of-place pair, or one aliasing probe. Non-trivial = the operand is reused after the call "
